@@ -197,7 +197,8 @@ def sec_tables_re(chk):
     from scipy.stats import invgamma, norm
     from nifty.re.num import stats_distributions as sd
     fails, cases = [], 0
-    params = [(2.5, 1.0, 0.0), (1.2, 3.0, 0.0), (4.0, 0.5, 0.0), (3.0, 2.0, 1.5)] + ([(6.0, 0.1, 0.0), (2.0, 2.0, -1.0)] if chk.tier == "thorough" else [])
+    # loc is documented as a shift of the whole distribution: negative shifts (support reaching below 0) included
+    params = [(2.5, 1.0, 0.0), (1.2, 3.0, 0.0), (4.0, 0.5, 0.0), (3.0, 2.0, 1.5), (2.0, 2.0, -1.0)] + ([(6.0, 0.1, 0.0), (1.5, 0.5, -3.0)] if chk.tier == "thorough" else [])
     for a, scale, loc in params:
         cases += 1
         fwd = sd.invgamma_prior(a, scale, loc)
@@ -205,18 +206,20 @@ def sec_tables_re(chk):
         nodes = np.arange(-8.2, 8.2, 0.01)[::37]
         want = invgamma.ppf(norm.cdf(nodes), a=a, loc=loc, scale=scale)
         got = np.asarray(fwd(jnp.asarray(nodes)))
-        if not np.allclose(got, want, rtol=1e-10):
-            fails.append(dict(case=f"invgamma_prior(a={a}, scale={scale}, loc={loc}) at table nodes", detail=f"max rel. deviation {np.max(np.abs(got / want - 1)):.2e}"))
-        # between nodes: linear interpolation of log f with step h has error <= h^2/8 max|(log f)''| (derived from the table itself)
+        if not np.allclose(got, want, rtol=1e-10, equal_nan=False):
+            fails.append(dict(case=f"invgamma_prior(a={a}, scale={scale}, loc={loc}) at table nodes", detail=f"max rel. deviation {np.nanmax(np.abs(got / want - 1)):.2e}, {int(np.isnan(got).sum())} NaN of {got.size}"))
+        # between nodes: linear interpolation of log(f - loc) with step h has error <= h^2/8 max|(log(f - loc))''| (derived from the table itself)
         allnodes = np.arange(-8.2, 8.2, 0.01)
-        logt = np.log(invgamma.ppf(norm.cdf(allnodes), a=a, loc=loc, scale=scale) - (0. if loc == 0. else 0.))
+        logt = np.log(invgamma.ppf(norm.cdf(allnodes), a=a, loc=0., scale=scale))
         d2 = np.abs(np.diff(logt, 2)) / 0.01 ** 2
         bound = 1.5 * 0.01 ** 2 / 8 * np.max(d2[np.isfinite(d2)][50:-50])
         mid = nodes[20:-20] + 0.00437
         want = invgamma.ppf(norm.cdf(mid), a=a, loc=loc, scale=scale)
         got = np.asarray(fwd(jnp.asarray(mid)))
-        if not np.all(np.abs(np.log(got) - np.log(want)) <= bound + 1e-12):
-            fails.append(dict(case=f"invgamma_prior(a={a}, scale={scale}, loc={loc}) between nodes", detail=f"max deviation of log T {np.max(np.abs(np.log(got) - np.log(want))):.2e} exceeds the interpolation bound {bound:.2e}"))
+        with np.errstate(invalid="ignore"):
+            dev = np.abs(np.log(got - loc) - np.log(want - loc))
+        if not np.all(dev <= bound + 1e-12):
+            fails.append(dict(case=f"invgamma_prior(a={a}, scale={scale}, loc={loc}) between nodes", detail=f"max deviation of log(T - loc) {np.nanmax(dev):.2e} exceeds the interpolation bound {bound:.2e} ({int(np.isnan(dev).sum())} NaN)"))
         grid = np.linspace(-8, 8, 4001)
         g = np.asarray(fwd(jnp.asarray(grid)))
         inner = np.abs(grid) <= 6
@@ -227,7 +230,7 @@ def sec_tables_re(chk):
         if not np.allclose(rt, x, atol=1e-6):
             fails.append(dict(case=f"invgamma_invprior(invgamma_prior(x)) != x for a={a}, scale={scale}, loc={loc}", detail=f"max deviation {np.max(np.abs(rt - x)):.2e}"))
     chk.bounded("nifty.re inverse-gamma table transform against scipy.stats.invgamma.ppf(norm.cdf(x))", bound=f"{cases} parameter sets; nodes exact to 1e-10, "
-                "between nodes within the bound h^2/8 max|(log f)''| derived from the table, round trip 1e-6", cases=cases, nontrivial=cases, failures=fails, kind="B-runtime")
+                "between nodes within the bound h^2/8 max|(log(f - loc))''| derived from the table, round trip 1e-6", cases=cases, nontrivial=cases, failures=fails, kind="B-runtime")
 
 
 def sec_classic(chk):
